@@ -104,9 +104,14 @@ impl<'a, T, L: MutLayout + Send + Sync> IntoParallelIterator for InnerIterMut<'a
 
 impl<'a, T, L: MutLayout + RemoveDim> SplitIterator for AxisIter<'a, T, L> {
     fn split_at(self, index: usize) -> (Self, Self) {
-        let (left_view, right_view) = self.view.split_at(self.axis, index);
-        let left = AxisIter::new(&left_view, self.axis);
-        let right = AxisIter::new(&right_view, self.axis);
+        // Split the remaining items, which are those in `self.index..self.end`.
+        assert!(index <= self.end - self.index);
+        let mid = self.index + index;
+        let (left_view, right_view) = self.view.split_at(self.axis, mid);
+        let mut left = AxisIter::new(&left_view, self.axis);
+        left.index = self.index;
+        let mut right = AxisIter::new(&right_view, self.axis);
+        right.end = self.end - mid;
         (left, right)
     }
 }
@@ -120,9 +125,16 @@ where
 
 impl<'a, T, L: MutLayout + RemoveDim> SplitIterator for AxisIterMut<'a, T, L> {
     fn split_at(self, index: usize) -> (Self, Self) {
-        let (left_view, right_view) = self.view.split_at_mut(self.axis, index);
-        let left = AxisIterMut::new(left_view, self.axis);
-        let right = AxisIterMut::new(right_view, self.axis);
+        // Split the remaining items, which are those in `self.index..self.end`.
+        // Items before `self.index` have already been yielded and must not be
+        // yielded again.
+        assert!(index <= self.end - self.index);
+        let mid = self.index + index;
+        let (left_view, right_view) = self.view.split_at_mut(self.axis, mid);
+        let mut left = AxisIterMut::new(left_view, self.axis);
+        left.index = self.index;
+        let mut right = AxisIterMut::new(right_view, self.axis);
+        right.end = self.end - mid;
         (left, right)
     }
 }
